@@ -1,7 +1,7 @@
 SPECIFICATION SpecH
 CONSTANTS
   NObj = 2
-  ObjType <- MCObjType
+  ObjType <- MCObjTypeDD
   NSlot = 3
   SlotType <- MCSlotTypeCBD
   MaxExplicit = 1
